@@ -305,6 +305,9 @@ func (r *Run) Finish() {
 		r.inconcl = append(r.inconcl, "too few distinct non-trivial cases observed")
 		fmt.Printf("INCONCLUSIVE property=%s reason=too few distinct non-trivial cases observed (%d)\n", r.ID, len(r.distinct))
 	}
+	if r.samples == nil {
+		r.samples = []any{}
+	}
 	cov := map[string]any{
 		"evaluations":         r.evals,
 		"distinct_nontrivial": len(r.distinct),
